@@ -1,5 +1,6 @@
 """C04 configuration for ./check"""
 CONF = {
+    'coq_sample': 40,   # cases re-evaluated inside Coq by vm_compute against the extracted runner's output
     'interesting': ['len-1500/1501', 'mutate-after-decode', 'dispose-then-reuse-block', 'concurrent'],
     'rule': 'Histories of caller-buffer allocations (lengths around the 1500-byte pool block: 0,1,2,7,64,1499,1500,1501,3000, random <1600, 65535), NewPacket with the four NoCopy/Pool combinations, Dispose of pooled packets, caller mutations of its buffers, and bursts of concurrent pooled NewPacket/Dispose from 2..8 goroutines. Which block sync.Pool.Get returned is observed (backing-array identity via unsafe.SliceData) and fed to the model as the nondeterministic choice. After every op the length, a position-weighted digest and the first 8 bytes of every packet\'s Data() are compared with the model; the implementation oracle checks that owning packets keep their bytes and that live copies are pairwise disjoint and away from caller memory.',
     'assumptions': ['sync.Pool Get/Put are linearizable and never hand out a block that was not Put back (goroutine interleavings reduce to histories)',
